@@ -275,6 +275,123 @@ def gen_dev(tier, seed):
     return cases
 
 
+# ---- several enumeration / bits types in ONE Modules set (enumset): the table of each type is a function of its OWN
+# member list, whatever else the set contains.  Names are arbitrary YANG strings (quoted): the lists of one case are
+# REGROUPINGS of one flat text - adjacent members merged into one name through a separator character, an explicit
+# value folded into the name, the same names in another order / with other values - so that any two lists that some
+# textual summary of a member list (joined names, name<sep>value, sorted names, names only, ...) confuses occur together
+SEPS = [",", "=", ":", ";", " ", "|", "/", "-", ".", "_", "+", "#", "&", ", ", "=,", "\\", '"', "'", "{", "}"]
+PLACES = "iltgIT"
+PLACE_PAIRS = ["ii", "il", "ti", "it", "tt", "gi", "Ii", "iI", "Ti", "iT", "TI", "lg"]
+
+
+def set_type(kind, place, members):
+    return "%s%s;%s" % (kind, place, ",".join("%s:%s" % (hexs(n), "~" if v is None else hexs(v)) for n, v in members))
+
+
+def set_case(steps, types):
+    return "enumset %s %s" % (steps, " ".join(set_type(k, p, ms) for k, p, ms in types))
+
+
+def regroup_pairs(sep):
+    """pairs (a, b) of DIFFERENT valid member lists that read the same when names and numbers are strung together with sep
+    (LO / HI / HI1 = the minimum, the maximum, the maximum - 1 of the kind: see bound)"""
+    out = []
+    tail = [("off", None)]
+    for x, y in (("a", "b"), ("10", "100"), ("rx", "tx"), ("up", "down")):
+        out.append(([(x + sep + y, None)], [(x, None), (y, None)]))                               # one name | two names
+        out.append(([(x + sep + y, None), ("z", None)], [(x, None), (y, None), ("z", None)]))
+        out.append(([("z", None), (x + sep + y, None)], [("z", None), (x, None), (y, None)]))
+        out.append(([(x, "3"), (y + sep + "c", None)], [(x, "3"), (y, None), ("c", None)]))
+    for nm, v in (("mode", "2"), ("a", "0"), ("b", "7"), ("p", "2147483646")):
+        out.append(([(nm + sep + v, None)] + tail, [(nm, v)] + tail))                             # name<sep>number | explicit number
+        out.append(([("first", None), (nm + sep + v, None)] + tail, [("first", None), (nm, v)] + tail)
+                   if v != "0" else ([("first", "4"), (nm + sep + v, None)] + tail, [("first", "4"), (nm, v)] + tail))
+    # both at once, next to the boundary values
+    out.append(([("lo", "LO"), ("x" + sep + "y" + sep + "5", None), ("hi", "HI")], [("lo", "LO"), ("x", None), ("y", "5"), ("hi", "HI")]))
+    out.append(([("lo", "LO"), ("x" + sep + "y", "5"), ("hi", "HI")], [("lo", "LO"), ("x", None), ("y", "5"), ("hi", "HI")]))
+    out.append(([("x", None), ("y" + sep + "HI1", None)], [("x", None), ("y", "HI1")]))
+    return out
+
+
+def bound(kind, ms):
+    lo, hi = ("0", 4294967295) if kind == "b" else ("-2147483648", 2147483647)
+    sub = {"LO": lo, "HI": str(hi), "HI1": str(hi - 1)}
+    res = []
+    for n, v in ms:
+        for k in ("HI1", "LO", "HI"):
+            n = n.replace(k, sub[k])
+        res.append((n, sub.get(v, v)))
+    return res
+
+
+def gen_set(tier, seed):
+    rnd = random.Random(seed ^ 0x5E7)
+    cases = []
+    # (1) every separator x every regrouping shape x enum/bits x where the two types sit x which comes first
+    for si, sep in enumerate(SEPS):
+        for pi, (a, b) in enumerate(regroup_pairs(sep)):
+            for kind in "eb":
+                la, lb = bound(kind, a), bound(kind, b)
+                pps = PLACE_PAIRS if sep in (",", "=") or tier == "thorough" else [PLACE_PAIRS[(si + pi) % len(PLACE_PAIRS)], "ii"]
+                for pp in pps:
+                    cases.append(set_case("P", [(kind, pp[0], la), (kind, pp[1], lb)]))
+                    cases.append(set_case("P", [(kind, pp[0], lb), (kind, pp[1], la)]))
+                for steps in ("PP", "GP", "PG"):
+                    cases.append(set_case(steps, [(kind, "i", la), (kind, "t", lb)]))
+                # a third, ordinary type in between; an equal list repeated; the other kind with the same members
+                cases.append(set_case("P", [(kind, "i", la), (kind, "i", [("up", None), ("down", None)]), (kind, "l", lb), (kind, "t", la)]))
+                cases.append(set_case("P", [(kind, "i", lb), ("b" if kind == "e" else "e", "i", bound("b" if kind == "e" else "e", b)), (kind, "I", la)]))
+    # (2) the same names in another order / with other numbers / one more or one fewer member / a list with an error next to its repair
+    for kind in "eb":
+        mx = 4294967295 if kind == "b" else 2147483647
+        base = [("a", None), ("b", None), ("c", None)]
+        near = [base, [("c", None), ("b", None), ("a", None)], [("b", None), ("a", None), ("c", None)], [("a", "0"), ("b", "1"), ("c", "2")],
+                [("a", "2"), ("b", "1"), ("c", "0")], [("a", "1"), ("b", None), ("c", None)], [("a", None), ("b", "5"), ("c", None)],
+                [("a", None), ("b", None)], [("a", None), ("b", None), ("c", None), ("d", None)], [("a", None), ("b", None), ("c", "3")],
+                [("a", None), ("b", "+1"), ("c", None)], [("a", None), ("b", "01"), ("c", None)], [("a", str(mx - 2)), ("b", None), ("c", None)],
+                [("a", None), ("b", None), ("C", None)], [("a", None), ("b", None), ("c ", None)], [("a", None), ("b", None), (" c", None)],
+                [("a", None), ("b", None), ("c", None), ("a", None)], [("a", str(mx)), ("b", None), ("c", None)], [("a", "1"), ("b", "1"), ("c", None)]]
+        for x in near:
+            for y in near:
+                cases.append(set_case("P", [(kind, "i", x), (kind, rnd.choice(PLACES), y)]))
+        for t3 in itertools.product(near[:7], repeat=3):
+            cases.append(set_case("P", [(kind, rnd.choice(PLACES), ms) for ms in t3]))
+    # (3) random: 2-4 types that are regroupings of one flat sequence of atoms
+    atoms = ["a", "b", "c", "1", "2", "10", "up", "x"]
+    for _ in range(2500 if tier == "quick" else 50000):
+        kind = rnd.choice("eb")
+        sep = rnd.choice(SEPS[:4]) if rnd.random() < 0.6 else rnd.choice(SEPS)
+        k = rnd.randint(2, 5)
+        flat = []
+        for i in range(k):
+            nm = rnd.choice(atoms) + ("" if rnd.random() < 0.5 else str(i))
+            flat.append((nm, rnd.choice([None, None, None, "0", "1", "2", "5", "7", "12"])))
+        types = []
+        for _j in range(rnd.randint(2, 4)):
+            ms, i = [], 0
+            while i < len(flat):
+                n, v = flat[i]
+                r = rnd.random()
+                if r < 0.3 and i + 1 < len(flat) and v is None:                # merge with the next member
+                    n2, v2 = flat[i + 1]
+                    ms.append((n + sep + n2, v2) if rnd.random() < 0.5 or v2 is None else (n + sep + n2 + rnd.choice(["=", sep]) + v2, None))
+                    i += 2
+                    continue
+                if r < 0.5 and v is not None:                                  # fold the number into the name
+                    ms.append((n + rnd.choice(["=", sep]) + v, None))
+                elif r < 0.58:                                                   # another number / none
+                    ms.append((n, rnd.choice([None, "3", "1"])))
+                else:
+                    ms.append((n, v))
+                i += 1
+            if rnd.random() < 0.1:
+                rnd.shuffle(ms)
+            types.append((kind if rnd.random() < 0.9 else rnd.choice("eb"), rnd.choice(PLACES), ms))
+        cases.append(set_case(rnd.choice(["P", "P", "P", "PP", "GP", "PG"]), types))
+    return cases
+
+
 def gen_api(tier, seed):
     rnd = random.Random(seed ^ 0xC14)
     cases = []
@@ -323,7 +440,7 @@ def run(res, tier, seed, proof):
     ago, aml, amism, askipped = simple_run(lib, res, acases)
     rejected_then_ok = sum(1 for g in ago if "eo" in g.split()[0])
     mcases = gen_mod(tier, seed) + gen_ext(tier, seed) + gen_proc(tier, seed) + gen_signs(tier, seed) + gen_union(tier, seed) + \
-        gen_dev(tier, seed)
+        gen_dev(tier, seed) + gen_set(tier, seed)
     mgo, mml, mmism, mskipped = simple_run(lib, res, mcases)
     mouts = {}
     for g in mgo:
@@ -361,8 +478,17 @@ def run(res, tier, seed, proof):
                     "one value, in size, written explicitly; all pairs, all triples of 8; random): every distinct member type keeps its "
                     "table, equal ones are listed once.  deviate replace of an enumeration/bits type by another (enumdev: 3 old x 18 new "
                     "member lists incl. same names at other positions, other names, the maximum, invalid ones; old type in place or via a "
-                    "typedef): the deviated leaf has the replacement's table" % (len(VALUES), len(API_ENUM), len(API_BITS), len(SUBS), len(MODVALS),
-                                                                                  len(sign_literals())),
+                    "typedef): the deviated leaf has the replacement's table.  Plus (enumset) 2-4 enumeration / bits types in ONE Modules set, "
+                    "member names being arbitrary quoted YANG strings: pairs of different member lists that are regroupings of one flat text - "
+                    "two adjacent names merged into one through a separator, an explicit number folded into the name (name<sep>number), both, next "
+                    "to the minimum/maximum - for each of %d separator strings (',', '=', ':', ';', blank, ...), enum and bits, 12 placements of "
+                    "the two types (leaf, leaf-list, typedef, grouping in the same module; leaf or typedef of a second module) and both "
+                    "resolution orders, with an ordinary type in between / an equal list repeated / the other kind with the same members, and "
+                    "Process/GetModule histories; all pairs of 19 near-identical lists (same names permuted, other numbers, other literal "
+                    "spelling, one more/fewer member, case/blank variants, invalid ones) and triples of 7; random sets of 2-4 regroupings of a "
+                    "random flat member sequence: every type's table must be the model's member loop on ITS OWN list (the model's table is "
+                    "a function of that list alone), and an error is reported iff some list has one" % (len(VALUES), len(API_ENUM), len(API_BITS), len(SUBS), len(MODVALS),
+                                                                                  len(sign_literals()), len(SEPS)),
                mismatches=mism + amism + mmism, skipped_unmodelled=skipped + askipped + mskipped,
                distribution=dict(impl_outcomes=outs, api_cases=len(acases), api_sequences_with_an_accepted_call_after_a_rejected_one=rejected_then_ok,
                                  api_cases_editing_a_returned_container=sum(1 for g in ago if "r" in g.split()[0][4:]),
@@ -371,12 +497,15 @@ def run(res, tier, seed, proof):
                                  union_cases=sum(1 for c in mcases if c.startswith("enumunion")),
                                  union_cases_with_two_or_more_tables=sum(1 for g in mgo if g.startswith("ok ") and " | " in g),
                                  deviation_cases=sum(1 for c in mcases if c.startswith("enumdev")),
+                                 several_types_cases=sum(1 for c in mcases if c.startswith("enumset")),
+                                 several_types_cases_without_error=sum(1 for c, g in zip(mcases, mgo) if c.startswith("enumset") and " | " in g),
                                  restriction_cases=sum(1 for c in mcases if c.startswith("enumproc") and c.split()[2] in "rR"),
                                  process_histories_with_error_every_time=sum(1 for g in mgo if g.startswith("steps=ee")), substatement_impl_outcomes=mouts,
                                  substatement_cases_with_an_obsolete_member=sum(1 for c in mcases if c.startswith("enummod") and "o" in "".join(x.split(":", 2)[2] for x in c.split()[2].split(",")))),
                samples=[cases[40], cases[len(cases) // 2], cases[-1], acases[len(acases) // 2], acases[-1], mcases[len(mcases) // 2], mcases[-1]],
                sample_observations=[go[40], go[len(cases) // 2], go[-1], ago[len(acases) // 2], ago[-1], mgo[len(mcases) // 2], mgo[-1]])
-    return cov, ["member names are plain identifiers; through Type.resolve, after the first recorded error only the presence of an "
+    return cov, ["member names are plain identifiers except in the several-types family (enumset), where they are non-empty strings of "
+                 "printable ASCII incl. separators, quotes and blanks; through Type.resolve, after the first recorded error only the presence of an "
                  "error is compared (the state after a rejected member is compared through the EnumType API sequences); member "
                  "substatements other than value/position are drawn from status, description, reference, if-feature"]
 
